@@ -236,6 +236,16 @@ def upper_len(e):
     return None
 
 
+def _unstable_locals(e, acc):
+    if not isinstance(e, tuple):
+        return
+    if e and e[0] == "local":
+        acc.add(e[1])
+    for x in e:
+        if isinstance(x, tuple):
+            _unstable_locals(x, acc)
+
+
 def contains_unstable(e):
     if not isinstance(e, tuple):
         return False
@@ -472,8 +482,20 @@ def dominating_conditions(body, site_block):
             lo, hi = min(vals), max(vals)
             cons = [(discr, lo, hi)]
         for (ex, lo, hi) in cons:
-            if contains_unstable(ex):
-                continue
+            ul = set()
+            _unstable_locals(ex, ul)
+            if ul:
+                # a multiply-assigned local is only usable when it is not assigned between guard and site
+                between0 = _blocks_between(body, tb, site_block)
+                defs = body.defs()
+                clob = False
+                for l in ul:
+                    for key in (l, ("partial", l)):
+                        for d3 in defs.get(key, []):
+                            if d3[0] in between0:
+                                clob = True
+                if clob:
+                    continue
             roots = set()
             _roots(ex, roots)
             mut_roots = set(r for r in roots if body.local_ty(r).startswith("&mut"))
